@@ -13,7 +13,7 @@ import (
 
 // ---- callback families --------------------------------------------------------------------------
 
-const nPreds = 8
+const nPreds = 10
 const nMaps = 6
 
 // idxPred returns predicate number p of the family over (index, value).
@@ -34,6 +34,10 @@ func idxPred[T comparable](d *Dom[T], p, k int) func(int, T) bool {
 		return func(_ int, v T) bool { return v == pivot }
 	case 6:
 		return func(i int, v T) bool { return i%3 == 0 && d.Cmp(v, pivot) >= 0 }
+	case 8: // a long leading run of matches, then none (whole blocks of 8, 64, ... positions all match)
+		return func(i int, _ T) bool { return i < 8*k }
+	case 9: // ... and the other way round
+		return func(i int, _ T) bool { return i >= 8*k }
 	}
 	// (the exact rendering tells -0 from +0 and one representative of a comparator class from another)
 	return func(i int, v T) bool { return d.Cmp(v, pivot) == 0 || i == k%7 || hashStr(d.Str(v))%4 == 0 }
